@@ -265,13 +265,15 @@ def make_probes(rng, case, res, n_neutrons, alpha):
         for t in (tmin, tmax):
             for w in (wmin, wmax):
                 pr.append(f'PP {cf(t + alpha * w * d)} {cf(w)}')
-        for sf in frames[i]['subframes'][:8]:
+        sfs = list(frames[i]['subframes'])
+        rng.shuffle(sfs)
+        for sf in sfs[:5]:
             vs = [(fh(t), fh(w)) for t, w in sf]
             gt = sum(v[0] for v in vs) / len(vs)
             gw = sum(v[1] for v in vs) / len(vs)
             pr.append(f'PP {cf(gt)} {cf(gw)}')
             for (t, w) in vs:
-                for eps in (1e-6, 1e-3, 0.3):
+                for eps in (1e-6, 1e-2):
                     pr.append(f'PP {cf(t + eps * (gt - t))} {cf(w + eps * (gw - w))}')
                     pr.append(f'PP {cf(t - eps * (gt - t))} {cf(w - eps * (gw - w))}')
         n_pts += len(pr)
@@ -440,14 +442,22 @@ def search(ctx, broken):
                 arr = t0 + alpha * lam * fh(ch['d'])
                 wm = max([min(arr - fh(a), fh(b) - arr) for a, b in ch['windows']], default=-st)
                 m = min(m, wm / st)
-            if abs(m) < 1e-7:
+            if abs(m) < 1e-6:
                 continue
             p = (t0 + alpha * lam * d, lam)
 
             def inside(V):
                 n = len(V)
-                return n > 0 and all((V[(i + 1) % n][0] - V[i][0]) * (p[1] - V[i][1]) - (V[(i + 1) % n][1] - V[i][1]) * (p[0] - V[i][0])
-                                     >= -1e-9 * st * wmax for i in range(n))
+                if n == 0:
+                    return False
+                ok = (min(v[0] for v in V) - 1e-9 * st <= p[0] <= max(v[0] for v in V) + 1e-9 * st
+                      and min(v[1] for v in V) - 1e-9 * wmax <= p[1] <= max(v[1] for v in V) + 1e-9 * wmax)
+                for i in range(n):
+                    u, v = V[i], V[(i + 1) % n]
+                    et, ew = v[0] - u[0], v[1] - u[1]
+                    cr = et * (p[1] - u[1]) - ew * (p[0] - u[0])
+                    ok = ok and cr >= -1e-9 * (abs(et) * wmax + abs(ew) * st) - 1e-13 * st * wmax
+                return ok
             got = any(inside(V) for V in polys)
             if got != (m > 0):
                 ctx.violation('reach:mismatch', f'neutron (t0={t0}, lambda={lam}) is {"" if m > 0 else "not "}transmitted but '
